@@ -239,6 +239,11 @@ class Scheduler:
         global ACTIVE
         if not self.threads:
             return
+        # threading._after_fork() re-creates this lock in every forked child, by
+        # then with the patched (cooperative) RLock; threads take it while they
+        # start and exit, when the tape does not schedule them: keep it real
+        if isinstance(getattr(threading, '_active_limbo_lock', None), SimRLock):
+            threading._active_limbo_lock = _thread.RLock()
         ACTIVE = self
         seam.yield_hook = self.seam_yield
         if self.traced and self.granularity == 'opcode':
@@ -356,6 +361,7 @@ class Scheduler:
         self._finish()
 
     def _finish(self):
+        self.current = None
         try:
             self.done_lock.release()
         except RuntimeError:
@@ -428,7 +434,7 @@ class SimLock:
     def acquire(self, blocking=True, timeout=-1):
         sc = ACTIVE
         cur = sc.current if sc is not None else None
-        if cur is None or _thread.get_ident() != cur.ident:
+        if cur is None or cur.state == 'done' or _thread.get_ident() != cur.ident:
             # not the baton holder (main thread, a thread that is still being
             # started or is exiting): an ordinary lock
             return self._real.acquire(blocking, timeout)
